@@ -94,7 +94,7 @@ def bool_facts(e, pol):
 
 
 class PathFacts:
-    def __init__(self, prog, fa, kill_summaries=None, record_calls=None, cap=2000, history=False, record_stores=None):
+    def __init__(self, prog, fa, kill_summaries=None, record_calls=None, cap=2000, history=False, record_stores=None, entry=0):
         self.prog = prog
         self.fa = fa
         self.fn = fa.fn
@@ -109,8 +109,11 @@ class PathFacts:
         self._blk_kill = {}
         self.IN = None
         self.history = history
+        # entry != 0: analyse one iteration of the loop headed by `entry` (edges back into it are cut)
+        self.entry = entry
+        region = self.cfg.reachable_from(entry) if entry else self.cfg.reach
         # feasibility pruning of repeated tests of the same value is exact only without loops
-        self.loop_free = not self.cfg.back_edges()
+        self.loop_free = all((y == entry and entry != 0) for (x, y) in self.cfg.back_edges() if x in region and y in region)
         # parameters of shared reference type: their referents are immutable during the call
         self.immut = frozenset(i + 1 for i, t in enumerate(self.fn.inputs) if t.startswith('&') and not t.startswith('&mut'))
         self.run()
@@ -259,9 +262,9 @@ class PathFacts:
     def run(self):
         order = sorted(self.cfg.reach)
         IN = {b: None for b in order}
-        IN[0] = {frozenset()}
-        work = [0]
-        inq = {0}
+        IN[self.entry] = {frozenset()}
+        work = [self.entry]
+        inq = {self.entry}
         while work:
             b = work.pop(0)
             inq.discard(b)
@@ -269,10 +272,15 @@ class PathFacts:
             if st is None:
                 continue
             st2 = self.apply_kills(st, self.block_kills(b))
+            st2 = self.track_consts(b, st2)
             for (s, lab) in self.cfg.succ[b]:
+                if self.entry and s == self.entry:
+                    continue  # one iteration only
                 ef = self.edge_facts(b, lab)
                 new = set()
                 for fs in st2:
+                    if not self.edge_feasible(b, lab, fs):
+                        continue
                     ns = fs | frozenset(ef) if ef else fs
                     if self.loop_free and ef and contradictory(ns, ef):
                         continue
@@ -289,6 +297,75 @@ class PathFacts:
                         work.append(s)
                         inq.add(s)
         self.IN = IN
+
+    # ---- constants assigned to plain locals along the path (flow-sensitive, killed on reassignment)
+    def _const_script(self, b):
+        key = ('cs', b)
+        if key in self._edge_cache:
+            return self._edge_cache[key]
+        script = []
+        bb = self.blocks[b]
+        for s in bb['s']:
+            if 'p' not in s:
+                continue
+            p = s['p']
+            if p['pr']:
+                if p['pr'][0] not in ('*', '*raw'):
+                    script.append(('kill', p['l']))
+                continue
+            rv = s['rv']
+            if rv['k'] == 'use' and 'k' in rv['x'] and 'scalar' in rv['x']['k'] and 'def' not in rv['x']['k']:
+                script.append(('set', p['l'], rv['x']['k']['scalar']['bits']))
+            elif rv['k'] == 'use' and ('c' in rv['x'] or 'm' in rv['x']) and not (rv['x'].get('c') or rv['x'].get('m'))['pr']:
+                script.append(('copy', p['l'], (rv['x'].get('c') or rv['x'].get('m'))['l']))
+            else:
+                script.append(('kill', p['l']))
+        t = bb['t']
+        if t['k'] == 'call' and not t['d']['pr']:
+            script.append(('kill', t['d']['l']))
+        am = self.fa.addr_taken_mut()
+        script = [x for x in script if x[1] not in am]
+        self._edge_cache[key] = script
+        return script
+
+    def track_consts(self, b, state):
+        script = self._const_script(b)
+        if not script:
+            return state
+        out = set()
+        for fs in state:
+            cur = {f[1]: f[2] for f in fs if f[0] == '~c'}
+            if not cur and not any(x[0] == 'set' for x in script):
+                out.add(fs)
+                continue
+            for x in script:
+                if x[0] == 'set':
+                    cur[x[1]] = x[2]
+                elif x[0] == 'copy':
+                    if x[2] in cur:
+                        cur[x[1]] = cur[x[2]]
+                    else:
+                        cur.pop(x[1], None)
+                else:
+                    cur.pop(x[1], None)
+            base = frozenset(f for f in fs if f[0] != '~c')
+            out.add(base | frozenset(('~c', l, v) for l, v in cur.items()))
+        return out
+
+    def edge_feasible(self, b, lab, fs):
+        t = self.blocks[b]['t']
+        if t['k'] != 'switch':
+            return True
+        pl = t['d'].get('c') or t['d'].get('m')
+        if pl is None or pl['pr']:
+            return True
+        for f in fs:
+            if f[0] == '~c' and f[1] == pl['l']:
+                v = f[2]
+                if lab[0] == 'sw':
+                    return lab[1] == v
+                return v not in lab[1]
+        return True
 
     def at_entry(self, b):
         """path fact sets at entry of block b"""
@@ -359,7 +436,7 @@ def minimal(sets, force=False):
 def fact_killed(f, ks, immut=frozenset()):
     """is fact f invalidated by the kill keys ks?  Loads rooted at a shared-reference
     parameter (index in immut) cannot change during the call and are never killed."""
-    if f[0] in ('stored', 'called', '~b', '~v'):
+    if f[0] in ('stored', 'called', '~b', '~v', '~c'):
         return False  # history markers
     rr = roots_read(f)
     only_immut = bool(rr) and rr <= immut and not any(x and x[0] == 'local' for x in walk(f))
@@ -562,13 +639,13 @@ class Analyses:
             self._kills = KillSummaries(self.prog, self)
         return self._kills
 
-    def paths(self, fn, record_calls=None, history=False, tag=None, record_stores=None):
+    def paths(self, fn, record_calls=None, history=False, tag=None, record_stores=None, entry=0):
         """path facts of fn.  history=True: facts are never invalidated (they record which
         tests were passed on the way, evaluated at the time of the test); history=False:
         facts about memory are dropped when that memory may have been written."""
-        key = ('pf', fn.key, tag if (record_calls or record_stores) else None, history)
+        key = ('pf', fn.key, tag if (record_calls or record_stores) else None, history, entry)
         if key not in self._c:
-            self._c[key] = PathFacts(self.prog, self.get(fn), self.kills(), record_calls, history=history, record_stores=record_stores)
+            self._c[key] = PathFacts(self.prog, self.get(fn), self.kills(), record_calls, history=history, record_stores=record_stores, entry=entry)
         return self._c[key]
 
 
